@@ -132,6 +132,12 @@ def handleReq (j : Json) : Option Json := do
     let n ← getNat? j "n"; let es ← getNatss? j "edges"; let mo ← getNat? j "max_order"
     if es.any (fun e => e.length != 2) then pure unmodelled else
     pure (netJ (List.range n) (flagComplex n (adjOf es) mo) 0)
+  | "flag_complex_ps" =>
+    let n ← getNat? j "n"; let es ← getNatss? j "edges"; let mo ← getNat? j "max_order"; let picked ← getNatss? j "picked"
+    if es.any (fun e => e.length != 2) then pure unmodelled else
+    pure (match flagPromoted n (adjOf es) mo picked with
+      | none => unmodelled
+      | some K => netJ (List.range n) K 0)
   | "random_simplicial_complex" =>
     let n ← getNat? j "n"; let sizes ← getNats? j "sizes"; let coins ← getBools? j "coins"
     pure (answer (List.range n) (randomSC n sizes coins))
